@@ -16,9 +16,9 @@ use truc::record::{
             generic::{variant as gvariant, GenericRecordDefinitionBuilder},
             native::{DatumDefinitionOverride, NativeRecordDefinitionBuilder},
         },
-        DatumId, RecordVariantId,
+        DatumDefinition, DatumId, NativeDatumDetails, RecordVariantId,
     },
-    type_resolver::HostTypeResolver,
+    type_resolver::{DynamicTypeInfo, HostTypeResolver, TypeInfo, TypeResolver},
 };
 use vcore::*;
 
@@ -27,7 +27,16 @@ const POOL: [&str; 8] = ["alpha", "beta", "gamma", "delta", "eps", "zeta", "r#ty
 #[derive(Clone, Debug, Serialize, Deserialize, PartialEq, Eq, Hash)]
 pub enum AdvReq {
     /// Add with a name from the pool (clashes possible) or a fresh one.
-    Add { name: Option<u8>, size: usize, align: usize, uninit: bool },
+    /// `via`: entry point of the native builder (0 complete override, 1 copy_datum, 2 add_dynamic_datum,
+    /// 3 add_datum::<T>, 4 add_datum_allow_uninit::<T>, 5 override of the name only).
+    Add {
+        name: Option<u8>,
+        size: usize,
+        align: usize,
+        uninit: bool,
+        #[serde(default)]
+        via: u8,
+    },
     /// Remove one of the current data.
     RemoveCurrent { sel: u16 },
     /// Remove up to `count` of the current data, walking the current list backwards from the selected one.
@@ -50,8 +59,8 @@ pub struct AdvHistory {
 
 fn adv_req() -> impl Strategy<Value = AdvReq> {
     prop_oneof![
-        10 => (prop::option::weighted(0.7, 0u8..8), shape_strategy(), any::<bool>())
-            .prop_map(|(name, (size, align), uninit)| AdvReq::Add { name, size, align, uninit }),
+        10 => (prop::option::weighted(0.7, 0u8..8), shape_strategy(), any::<bool>(), prop_oneof![3 => Just(0u8), 3 => 1u8..6])
+            .prop_map(|(name, (size, align), uninit, via)| AdvReq::Add { name, size, align, uninit, via }),
         4 => any::<u16>().prop_map(|sel| AdvReq::RemoveCurrent { sel }),
         1 => (any::<u16>(), 2u8..70).prop_map(|(sel, count)| AdvReq::RemoveBurst { sel, count }),
         3 => any::<u16>().prop_map(|sel| AdvReq::RemoveIssued { sel }),
@@ -70,7 +79,7 @@ fn adv_history() -> impl Strategy<Value = AdvHistory> {
             1 => (66usize..90, strat_strategy(), prop::collection::vec(adv_req(), 0..40))
                 .prop_map(|(n, strat, rest)| {
                     let mut reqs: Vec<AdvReq> = (0..n)
-                        .map(|i| AdvReq::Add { name: None, size: 1 << (i % 4), align: 1 << (i % 4), uninit: i % 2 == 0 })
+                        .map(|i| AdvReq::Add { name: None, size: 1 << (i % 4), align: 1 << (i % 4), uninit: i % 2 == 0, via: (i % 6) as u8 })
                         .collect();
                     reqs.push(AdvReq::Close { strat });
                     reqs.extend(rest);
@@ -93,7 +102,7 @@ fn adv_history() -> impl Strategy<Value = AdvHistory> {
 // Builder abstraction
 
 trait Sut {
-    fn add(&mut self, name: &str, size: usize, align: usize, uninit: bool) -> Result<DatumId, String>;
+    fn add(&mut self, name: &str, size: usize, align: usize, uninit: bool, via: u8) -> Result<DatumId, String>;
     fn remove(&mut self, id: DatumId) -> Result<(), String>;
     fn close(&mut self, strat: Strat) -> RecordVariantId;
     fn current(&self) -> Vec<DatumId>;
@@ -110,7 +119,7 @@ trait Sut {
 struct GenericSut(GenericRecordDefinitionBuilder<u32>);
 
 impl Sut for GenericSut {
-    fn add(&mut self, name: &str, size: usize, _align: usize, _uninit: bool) -> Result<DatumId, String> {
+    fn add(&mut self, name: &str, size: usize, _align: usize, _uninit: bool, _via: u8) -> Result<DatumId, String> {
         self.0.add_datum(name, size as u32)
     }
     fn remove(&mut self, id: DatumId) -> Result<(), String> {
@@ -148,12 +157,46 @@ impl Sut for GenericSut {
     }
 }
 
-static HOST: HostTypeResolver = HostTypeResolver;
+static HOST: KeyResolver = KeyResolver;
 
-struct NativeSut(NativeRecordDefinitionBuilder<&'static HostTypeResolver>);
+/// Host resolver for typed requests; dynamic keys `S<size>A<align>U<0|1>` answer what they say.
+pub struct KeyResolver;
+
+impl TypeResolver for KeyResolver {
+    fn type_info<T>(&self) -> TypeInfo {
+        HostTypeResolver.type_info::<T>()
+    }
+    fn dynamic_type_info(&self, key: &str) -> DynamicTypeInfo {
+        let (s, rest) = key[1..].split_once('A').expect("key");
+        let (a, u) = rest.split_once('U').expect("key");
+        let (size, align) = (s.parse().expect("size"), a.parse().expect("align"));
+        DynamicTypeInfo { info: TypeInfo { name: type_name_of(size, align), size, align }, allow_uninit: u == "1" }
+    }
+}
+
+struct NativeSut(NativeRecordDefinitionBuilder<&'static KeyResolver>);
 
 impl Sut for NativeSut {
-    fn add(&mut self, name: &str, size: usize, align: usize, uninit: bool) -> Result<DatumId, String> {
+    fn add(&mut self, name: &str, size: usize, align: usize, uninit: bool, via: u8) -> Result<DatumId, String> {
+        match via {
+            1 => {
+                return self.0.copy_datum(&DatumDefinition::new(
+                    DatumId::from(0usize),
+                    name.to_string(),
+                    NativeDatumDetails::new(0, TypeInfo { name: type_name_of(size, align), size, align }, uninit),
+                ))
+            }
+            2 => return self.0.add_dynamic_datum(name, format!("S{}A{}U{}", size, align, uninit as u8)),
+            3 => return if size % 2 == 0 { self.0.add_datum::<String, _>(name) } else { self.0.add_datum::<u16, _>(name) },
+            4 => return if size % 2 == 0 { self.0.add_datum_allow_uninit::<u64, _>(name) } else { self.0.add_datum_allow_uninit::<[u8; 3], _>(name) },
+            5 => {
+                return self.0.add_datum_override::<Vec<()>, _>(
+                    name,
+                    DatumDefinitionOverride { type_name: Some("Vec<u32>".to_string()), size: None, align: None, allow_uninit: None },
+                )
+            }
+            _ => {}
+        }
         self.0.add_datum_override::<(), _>(
             name,
             DatumDefinitionOverride {
@@ -370,7 +413,7 @@ pub fn check_c12(h: &AdvHistory) -> Result<CaseInfo, Failure> {
 
     for (step, req) in h.reqs.iter().enumerate() {
         match req {
-            AdvReq::Add { name, size, align, uninit } => {
+            AdvReq::Add { name, size, align, uninit, via } => {
                 let name = match name {
                     Some(k) => POOL[*k as usize % POOL.len()].to_string(),
                     None => {
@@ -381,7 +424,7 @@ pub fn check_c12(h: &AdvHistory) -> Result<CaseInfo, Failure> {
                 };
                 let expect_ok = model.add_ok(&name);
                 let before = if expect_ok { None } else { Some(snapshot(&*sut, &model, &fresh)) };
-                let res = guarded!(step, req, sut.add(&name, *size, *align, *uninit));
+                let res = guarded!(step, req, sut.add(&name, *size, *align, *uninit, *via));
                 match (res, expect_ok) {
                     (Ok(id), true) => {
                         let k = datum_index(id);
